@@ -2,6 +2,7 @@ package main
 
 import (
 	"fmt"
+	"os"
 	"go/ast"
 	"go/types"
 	"math/big"
@@ -116,6 +117,7 @@ type FuncCtx struct {
 	inputs   []string
 	lemmaFacts []*Term // function-level lemma instances evaluated at exit
 	defs     map[string]*Term // definitions of the named intermediate values
+	axiomCache map[string]*Term
 }
 
 func shortPkg(p string) string {
@@ -247,8 +249,124 @@ func (c *FuncCtx) oblige(st *State, kind, detail string, goal *Term, at ast.Node
 		o.File = c.prog.pos(at)
 	}
 	o.Assume = append(append([]*Term(nil), st.path...), extra...)
+	o.Assume = append(o.Assume, c.pureAxioms(st, o)...)
 	c.obls = append(c.obls, o)
 	return o
+}
+
+// pureAxioms: for every pure Go function that occurs (as an uninterpreted function f$) in a
+// quantified part of the obligation, the contract of f as a quantified axiom
+//
+//	forall args: requires(args) => ensures(args, f$(args))        pattern f$(args)
+//
+// (ground occurrences already get their contract instance when they are created).
+func (c *FuncCtx) pureAxioms(st *State, o *Obligation) []*Term {
+	if os.Getenv("LVC_NOPUREAX") != "" {
+		return nil
+	}
+	names := map[string]bool{}
+	var scan func(t *Term, under bool)
+	scan = func(t *Term, under bool) {
+		if t.Op == "forall" {
+			under = true
+		}
+		if under && t.Op == "app" && strings.HasSuffix(t.Name, "$") {
+			names[strings.TrimSuffix(t.Name, "$")] = true
+		}
+		for _, a := range t.Args {
+			scan(a, under)
+		}
+		for _, m := range t.Monos {
+			for _, a := range m.Atoms {
+				scan(a, under)
+			}
+		}
+	}
+	scan(o.Goal, false)
+	for _, a := range o.Assume {
+		scan(a, false)
+	}
+	if len(names) == 0 {
+		return nil
+	}
+	if c.axiomCache == nil {
+		c.axiomCache = map[string]*Term{}
+	}
+	var out []*Term
+	var ns []string
+	for n := range names {
+		ns = append(ns, n)
+	}
+	sort.Strings(ns)
+	for _, n := range ns {
+		if ax, ok := c.axiomCache[n]; ok {
+			if ax != nil {
+				out = append(out, ax)
+			}
+			continue
+		}
+		c.axiomCache[n] = nil
+		// find the function among the contracts (same package first)
+		var fi *FuncInfo
+		var con *Contract
+		for key, f := range c.prog.Funcs {
+			if f.Obj != nil && f.Obj.Name() == n && isPureScalar(f) {
+				if cc, ok := c.prog.Contracts[key]; ok {
+					fi, con = f, cc
+					if f.Pkg == c.pkg {
+						break
+					}
+				}
+			}
+		}
+		if fi == nil {
+			continue
+		}
+		sig := fi.Obj.Type().(*types.Signature)
+		var bvs []*Term
+		var args []Value
+		scratch := newState()
+		for i := 0; i < sig.Params().Len(); i++ {
+			pt := sig.Params().At(i).Type()
+			if at, ok := pt.Underlying().(*types.Array); ok {
+				arr := ArrV{}
+				for j := int64(0); j < at.Len(); j++ {
+					v := Var(fmt.Sprintf("ax!%s!%d!%d", n, i, j), SInt)
+					bvs = append(bvs, v)
+					arr.Elems = append(arr.Elems, IntV{v})
+				}
+				args = append(args, arr)
+			} else if isBoolType(pt) {
+				v := Var(fmt.Sprintf("ax!%s!%d", n, i), SInt)
+				bvs = append(bvs, v)
+				args = append(args, BoolV{Ne(v, ConstI(0))})
+			} else {
+				v := Var(fmt.Sprintf("ax!%s!%d", n, i), SInt)
+				bvs = append(bvs, v)
+				args = append(args, IntV{v})
+			}
+		}
+		var facts []*Term
+		res := c.applyPure(fi, con, args, func(t *Term) { facts = append(facts, t) }, scratch)
+		var pats []*Term
+		for _, r := range res {
+			switch x := r.(type) {
+			case IntV:
+				pats = append(pats, x.T)
+			case BoolV:
+				pats = append(pats, x.T)
+			}
+		}
+		// arguments are machine integers
+		rng := TTrue
+		for _, v := range bvs {
+			rng = And(rng, Le(ConstI(0), v), Lt(v, Const(W64)))
+		}
+		ax := Forall(bvs, pats[:1], Implies(rng, And(facts...)))
+		c.axiomCache[n] = ax
+		out = append(out, ax)
+	}
+	return out
 }
 
 // product multiplies two code-level values.  When an operand is a named intermediate value,
